@@ -3183,6 +3183,8 @@ def normalize_chunks(chunks, shape=None, limit=None, dtype=None, previous_chunks
 
     # If specifying chunk size in bytes, use that value to set the limit.
     # Verify there is only one consistent value of limit or chunk-bytes used.
+    if isinstance(limit, str):
+        limit = parse_bytes(limit)
     for c in chunks:
         if isinstance(c, str) and c != "auto":
             parsed = parse_bytes(c)
